@@ -21,7 +21,7 @@ open Pyg
 def getKeyD (d : D Val) (k : String) : Res Val :=
   match lookup k d.items with
   | some v => pure v
-  | none => Tree.getDotted (.dict d.items) (k.splitOn ".")
+  | none => Tree.getDotted (.dict d.items) (Tree.splitDots k)
 
 /-- `d[k1, k2, …]` -/
 def getTupleD (d : D Val) (ks : List String) : Res (List Val) := ks.mapM (getKeyD d)
